@@ -15,6 +15,8 @@ from ..symexpr import NotSymbolic, SymEval, Term, func
 from ..unittables import UNIT_TYPES_PY
 from . import common as K
 
+from . import C07 as _C07
+
 LEVEL_TEXT = ("static analysis (ast): sign-domain abstract interpretation of every computed error term, decision "
               "tables of the exact/uncertain branches and polynomial identities of the interval formulas; covers "
               "all magnitudes and all signs at once, which sampled tests with positive values cannot")
@@ -472,6 +474,10 @@ def r6_scaled_value_scaled_error(ctx):
     ctx.floor("magnitude constructions scanned", n, 8)
 
 
+def r7_operand_errors_intact(ctx):
+    _C07.r1_no_operand_mutation(ctx)
+
+
 RULES = [
     ("C08.R1", "every error term computed by the package (argument of Magnitude(...), store to .error) is NonNeg or None in the sign domain, assuming operand errors are", r1_nonnegative),
     ("C08.R2", "sum rule: error table of _add/_sub over (exact, uncertain)^2 is (None, r, l, l+r); value terms l+-r in float and Decimal branches", r2_sum_rule),
@@ -479,4 +485,5 @@ RULES = [
     ("C08.R4", "two-sided product/quotient errors are the interval half-widths, whose expansion is first order + remainder; reflected operators keep operand order", r4_first_order),
     ("C08.R6", "no Magnitude is rebuilt from another one's value times a factor while passing that one's error through unscaled (scaling goes through Magnitude arithmetic)", r6_scaled_value_scaled_error),
     ("C08.R5", "unit conversion: value x*f1/f2 (linear) or rule(x*f1)/f2; on the linear path the error is scaled by the same factors, None stays None", r5_conversion),
+    ("C08.R7", "propagation never rewrites the uncertainty of an operand in place (effect analysis shared with C07.R1)", r7_operand_errors_intact),
 ]
